@@ -3,7 +3,7 @@ N = ("Trusted: Coq 8.16.1 kernel (vm_compute used, no native_compute); no axioms
      "'Closed under the global context', re-checked on each run); the hand-written Gallina model (Tst/Traph/Traphw/Codec/Storage.v), tied "
      "to /repo by the files regenerated from the source on every run (Consts.v: constants, formats, accessor table; CallGraph.v; "
      "GenHelpers.v / GenHelpers2.v: the pure helpers incl. their loops; GenStorage.v: the two storage classes; GenNode.v: reading and "
-     "writing a trie node with its tail blocks - each proved equal to the model's definitions) and by this check's correspondence run (extraction: ExtrOcamlBasic only); the translators' Python subset; Python "
+     "writing a trie node with its tail blocks; GenLinks.v: the link store node class, add_links and the three list traversals - each proved equal to the model's definitions) and by this check's correspondence run (extraction: ExtrOcamlBasic only); the translators' Python subset; Python "
      "semantics (bytes order, struct, re, dict order, file I/O) as modelled. Quantifier of the theorems: every configuration (default rule "
      "+ anchored rules of the family), every history of well-formed requests (wf_op: LRUs non-empty and '|'-terminated, ids non-zero). ")
 REF = ("Refinement: RefFull.run_R proves that after EVERY history the model state is related (R = Rcore /\\ Rlinks) to the abstract "
@@ -29,7 +29,9 @@ CLAIMED = {
              "Byte layout is tied to the source by Consts.v (formats, stem size, flag bits re-proved) and by the raw-bytes comparison of the trie file."),
     "C03": c(REF + "Props/C03.v: get_page_links lists exactly the specification's weighted pairs (weight = number of submissions, out side = in side, "
              "self link once as internal), no duplicates; both link enumerations are the distinct submitted pairs (transposes); the link count is "
-             "twice the submissions in stubs.", T_REF, "DESIGN.md section 6 C03"),
+             "twice the submissions in stubs. On the link store translated from the source on every run (GenLinks.v): add_links appends exactly the "
+             "model's stubs and rewrites the page's block in place; the weighted traversal returns the model's weighted target list on the "
+             "store of every reachable state.", T_REF, "DESIGN.md section 6 C03"),
     "C04": c(REF + "Props/C04.v: retrieve_webentity / retrieve_prefix equal longest-stem-prefix resolution over the specification's net prefix map for "
              "every well-formed LRU (present or not), refusal iff none; prefix enumeration = that map; attaching an attached prefix is refused "
              "(create and add_prefix), exactly then.", T_REF, "DESIGN.md section 6 C04"),
